@@ -351,3 +351,66 @@ def reachable_without(body, banned_edges=(), banned_blocks=(), start=0):
             seen.add(s)
             work.append(s)
     return seen
+
+
+def flat_alts(e):
+    """alternatives of an expression (phi flattened)"""
+    out = []
+
+    def go(x):
+        if x.k == "phi":
+            for c in x.a:
+                go(c)
+        else:
+            out.append(x)
+    go(e)
+    return out
+
+
+def pure_option_view(e, *field_path):
+    """e is `self.<field>` as an Option view: every alternative is None or Some(<payload of self.field>)"""
+    if is_self_field(e, *field_path):
+        return True
+    alts = flat_alts(e)
+    some = [a for a in alts if not (a.k == "agg" and a.x.get("variant") == "None")]
+    if len(some) != 1:
+        return False
+    s = some[0]
+    if s.k == "call" and s.x["path"].endswith("Option::<T>::map"):
+        return is_self_field(s.a[0], *field_path) and s.a[1].k == "fn"
+    if not (s.k == "agg" and s.x.get("variant") == "Some" and s.a):
+        return False
+    src = unwrap_payload(s.a[0].strip() if s.a[0].k in ("ref", "deref") else s.a[0], "Some")
+    if src is None:
+        x = s.a[0].strip()
+        src = unwrap_payload(x, "Some")
+    return src is not None and is_self_field(src, *field_path)
+
+
+def source_sites(e, pred=None):
+    """sites of the calls an expression's value comes from (through payload projections, phi, tuples)"""
+    out = set()
+    for x in e.walk():
+        if x.k == "call" and x.x.get("site") is not None and (pred is None or pred(x)):
+            out.add(x.x["site"])
+    return out
+
+
+def tuple_part(e):
+    """which component(s) of the entry tuple an expression is: set of field indices found at the
+    top of each alternative (through borrows, phi and `?`)"""
+    out = set()
+    for x in flat_alts(e):
+        y = x.strip()
+        if y.k == "phi":
+            out |= tuple_part(y)
+        elif y.k == "field":
+            out.add(y.x["idx"])
+        else:
+            out.add(None)
+    return out
+
+
+def cursor_sources(e):
+    """sites of the ReaderCursor / helper calls an entry (or a part of it) comes from"""
+    return source_sites(e, lambda x: x.x["path"].startswith(A("rc_prefix")) or x.x["path"].endswith(A("last_prefix")))
